@@ -316,7 +316,7 @@ def wire(ctx):
     secret round-trip (C13 rules restricted to the objects that carry them)."""
     from . import c13
     c13.restricted(ctx, r'(dimension::Attribute|dimension::Dimension|AccessStructure|core::MasterSecretKey|core::RightSecretKey)$',
-                   [c13.agree, c13.fields, c13.order])
+                   [c13.agree, c13.fields, c13.order, c13.enum_codec_inverse])
 
 
 FLAG_READERS = {
